@@ -130,6 +130,12 @@ def check(ctx, rep):
                     acts.setdefault(f.text[len('command_char == tk.'):], []).append(t)
     rep.ob('command.on', 'ON enables and un-stops', acts.get('ON') == ['self.enabled.add(handler)', 'handler.stopped = False'], repr(acts.get('ON')), ctx.where(cmd))
     rep.ob('command.off', 'OFF discards the event from enabled', acts.get('OFF') == ['self.enabled.discard(handler)'], repr(acts.get('OFF')), ctx.where(cmd))
+    # OFF switches every kind of event off: the discard is not made to depend on the kind of handler
+    for n in own_nodes(cmd):
+        if isinstance(n, ast.Expr) and norm(n) == 'self.enabled.discard(handler)':
+            extra = [(f.text, f.pol) for f in fl.facts(n) if not f.text.startswith('command_char == tk.')]
+            rep.ob('command.off-for-every-kind', 'OFF discards the event whatever its kind', not extra,
+                   'the discard is conditional on %r: for the excluded kind OFF does nothing and the trap keeps firing while OFF' % (extra,), ctx.where(n))
     rep.ob('command.stop', 'STOP sets stopped (occurrences are remembered)', acts.get('STOP') == ['handler.stopped = True'], repr(acts.get('STOP')), ctx.where(cmd))
     # trigger only sets triggered
     tr = ctx.fn(BE + ':EventHandler.trigger')
